@@ -51,6 +51,10 @@ def cases(tier, seed):
         for radii in ([0.1, 0.1], [0.1, 0.3], [0.1, 0.1, 0.02, 0.02], [0.2, 0.1, 0.05, 0.3]):
             for length, turn in ((1.12, 0.15), (0.3, 0.3), (0.5, 2.0)):
                 yield dict(kind='helix', length=sl * length, turn=st * turn, radii=radii, ns=[n for n in ns if n <= 100])
+    # objects built through the API from Python integers (coordinates, radius as float) and transformed through the container
+    for op in ('rotate', 'translate-int', 'translate-float', 'scale', 'rotate+translate+scale'):
+        for tagged in (False, True):
+            yield dict(kind='apiint', op=op, tagged=tagged)
     # transformations through main()
     menu = [('rotate', [17., -33., 71.]), ('rotate', [90., 0., 0.]), ('rotate', [0., 180., 45.]), ('translate', [1.5, -2., 0.25]), ('scale', 10.), ('scale', 0.3)]
     depth = 2 if tier == 'quick' else 3
@@ -213,6 +217,46 @@ def evaluate(c):
                     viol.append(('HELIX-POS', '%s: segment ends %.3g off the documented helix positions' % (tag, dev)))
             canon.append('hx|%g|%g|%s|%d' % (c['length'], c['turn'], c['radii'], n))
             nontriv.append(True)
+    elif k == 'apiint':
+        ev += 1
+        geo = mm.Geo_Container()
+        w1 = mm.Wire(4, 1, 2, 3, 4, -1, 2, 0.01, tag=1)
+        w2 = mm.Wire(3, 4, -1, 2, 7, 0, 5, 0.02, tag=2)
+        geo.append(w1)
+        geo.append(w2)
+        geo.compute_tags()
+        ends0 = [np.array([[1., 2., 3.], [4., -1., 2.]]), np.array([[4., -1., 2.], [7., 0., 5.]])]
+        tg = 2 if c['tagged'] else None
+        R, t, sc_ = np.eye(3), np.zeros(3), 1.0
+        if 'rotate' in c['op']:
+            geo.rotate(1, np.array([17., -33., 71.]), tg)
+            R = geom.rotmat([17., -33., 71.])
+        if 'translate-int' in c['op']:
+            geo.translate(2, np.array([2, -1, 3]), tg)
+            t = np.array([2., -1., 3.])
+        if 'translate-float' in c['op'] or '+translate' in c['op']:
+            geo.translate(2, np.array([0.25, -1.5, 3.125]), tg)
+            t = np.array([0.25, -1.5, 3.125])
+        if 'scale' in c['op']:
+            geo.scale(0.5, tg)
+            sc_ = 0.5
+        m = mm.Mininec(10.0, geo)
+        for gi, g in enumerate(m.geo):
+            moved = (gi == 1) or not c['tagged']
+            e = ends0[gi]
+            exp = sc_ * (e @ R.T + t) if moved else e
+            n_ = g.n_segments
+            want = np.array([exp[0] + (exp[1] - exp[0]) * i / n_ for i in range(n_ + 1)])
+            got = np.array([g.segments[0].p1] + [sg.p2 for sg in g.segments], float)
+            dev = float(np.abs(got - want).max())
+            if dev > 1e-9 * max(1.0, np.abs(want).max()):
+                viol.append(('API-INT', 'wire %d built from integer coordinates, %s%s through the container: segment ends deviate %.3g (first end %s, expected %s)'
+                             % (gi + 1, c['op'], ' by tag' if c['tagged'] else '', dev, got[0], want[0])))
+            er = (0.01, 0.02)[gi] * (sc_ if moved else 1.0)
+            if abs(g.r - er) > 1e-12:
+                viol.append(('API-INT-RADIUS', 'wire %d: radius %g expected %g after %s' % (gi + 1, g.r, er, c['op'])))
+        canon.append('apiint|%s|%s' % (c['op'], c['tagged']))
+        nontriv.append(True)
     elif k == 'xform':
         ev += 2
         o = c['obj']
